@@ -293,11 +293,20 @@ func (iter *Iterator) Close() error {
 	if iter.rows == nil {
 		return iter.err
 	}
-	err := iter.rows.Close()
+	cerr := iter.rows.Close()
+	// An error that ended the iteration early (a driver failure while fetching
+	// a row or the cancellation of the context) is only reported by Rows.Err,
+	// Rows.Close returns nil once Next has closed the rows.
+	err := iter.rows.Err()
+	if err == nil {
+		err = cerr
+	}
 	iter.rows = nil
 	if iter.err != nil {
 		return iter.err
 	}
+	// Remember the error so that later calls return it as well.
+	iter.err = err
 	return err
 }
 
